@@ -45,6 +45,21 @@ def sched_table(env) -> List[List[Any]]:
     return out
 
 
+def whole_seconds(text: Any) -> int:
+    """a time stamp of an input file in the simulator's whole seconds since 1970 (epoch seconds, or ISO 8601 with or without a
+    fraction of a second: the instant lies in the second that has begun) - parsed here, not with the simulator's own parser"""
+    import datetime as _dt
+    import math
+
+    try:
+        return int(str(text).strip())
+    except ValueError:
+        t = _dt.datetime.fromisoformat(str(text).strip())
+        if t.tzinfo:
+            t = t.replace(tzinfo=None)
+        return int(math.floor((t - _dt.datetime(1970, 1, 1)).total_seconds()))
+
+
 def input_tables(sim, env) -> Dict[str, Any]:
     """the timed inputs as data, read from the scenario's own files: request departures and the price table with,
     for every row, the stations it names (by id, or by enclosing region - decided with h3 at the region's resolution)"""
@@ -63,7 +78,7 @@ def input_tables(sim, env) -> Dict[str, Any]:
             if has_fleets != bool(fleet):
                 continue        # a request whose membership does not fit the scenario is never admitted
             try:
-                dep = int(SimTime.build(row["departure_time"]))
+                dep = whole_seconds(row["departure_time"])
                 [float(row[c]) for c in ("o_lat", "o_lon", "d_lat", "d_lon")]      # a row that cannot be parsed is skipped
             except Exception:
                 continue
@@ -72,7 +87,7 @@ def input_tables(sim, env) -> Dict[str, Any]:
         with open(cfg.charging_price_file, encoding="utf-8-sig") as f:
             for k, row in enumerate(csv.DictReader(f)):
                 try:
-                    t = int(SimTime.build(row["time"]))
+                    t = whole_seconds(row["time"])
                     price = tracer.q(float(row["price_kwh"]), tracer.M_SCALE)
                 except Exception:
                     continue
